@@ -119,8 +119,40 @@ def strip(c):
     return {k: v for k, v in c.items() if k not in ("reuse", "tree")}
 
 
+def check_cli_object_histories(ctx, rng):
+    """one `Cli` object handling two or three command lines with different option sets one after the other: every run
+    equals the run of a fresh `Cli` object on that command line in the same process"""
+    import tempfile
+    from .. import clitools, gen
+    from . import C16 as _c16
+    with tempfile.TemporaryDirectory(prefix="j2m-c14-") as d:
+        sample = gen.gen_shared_samples(rng)
+        files = {"s.json": sample, "t.json": [{"payload": {"a": 1}, "when": "2020-01-02", "n": "12"}]}
+        clitools.write_files(d, files)
+        for _ in range(ctx.n(8, 80)):
+            seq = []
+            for _k in range(rng.randint(2, 3)):
+                opts, oargv = _c16.gen_opts(rng)
+                while "datetime" in opts or "disable" in opts:
+                    # these two options change the process-wide string-type registry by design (one command = one process)
+                    opts, oargv = _c16.gen_opts(rng)
+                seq.append(["-m", "Root", rng.choice(["s.json", "t.json"])] + oargv)
+            try:
+                r = clitools.run_cli_sequence(seq, d, ctx.repo)
+            except Exception as e:  # noqa
+                yield {"kind": "cli-reuse-raises", "sequence": seq, "files": files, "observed": str(e)[-300:]}
+                continue
+            ctx.case(("cli-object", repr(seq)), nontrivial=True)
+            for k, (a, b) in enumerate(zip(r["reused"], r["fresh_all"])):
+                if a != b:
+                    yield {"kind": "cli-object-history-dependent", "sequence": seq, "call": k, "files": files,
+                           "observed": {"reused_object": a, "fresh_object": b}}
+                    break
+
+
 def falsify(ctx):
     rng = ctx.rng("fals")
+    yield from check_cli_object_histories(ctx, rng)
     hists = [gen_history(rng) for _ in range(ctx.n(120, 2500))]
     singles = [strip(c) for h in hists for c in h]
     with ThreadPoolExecutor(max_workers=16) as ex:
@@ -152,6 +184,14 @@ def falsify(ctx):
 
 
 def replay(ctx, hit):
+    if hit.get("kind") in ("cli-object-history-dependent", "cli-reuse-raises"):
+        import tempfile
+        from .. import clitools
+        with tempfile.TemporaryDirectory(prefix="j2m-c14-") as d:
+            clitools.write_files(d, hit["files"])
+            r = clitools.run_cli_sequence(hit["sequence"], d, ctx.repo)
+        bad = [k for k, (a, b) in enumerate(zip(r["reused"], r["fresh_all"])) if a != b]
+        return {"kind": "cli-object-history-dependent", "observed": {"calls": bad}} if bad else None
     h = hit["history"]
     res = worker.run_in_fresh_process(h, None, ctx.repo, 600, "history")
     for i, (c, got) in enumerate(zip(h, res)):
